@@ -34,6 +34,8 @@ TARGETS = ["lod", "json", "pandas", "arrow"]
 def generate(rng, tier):
     target = rng.choice(TARGETS)
     n = rng.choice([1, 1, 2, 3, 5, 9, 20])
+    if rng.random() < 0.004:
+        n = rng.choice([1100, 12000])
     kinds = ["bool", "int", "float", "str", "date", "datetime", "obool", "lstr"]
     spec = []
     for j in range(rng.randint(1, 5)):
